@@ -233,7 +233,7 @@ def run_job(job):
 
 def main(chk):
     quick = chk.tier == "quick"
-    n = 40 if quick else 600
+    n = 160 if quick else 1200
     jobs = [{"id": "t%d" % i, "seed": job_seed(chk.seed, "C02", i), "queries": 60 if quick else 150} for i in range(n)]
     chk.run_jobs(jobs, budget_s=300 if quick else 3000)
     return chk.finish(
